@@ -63,6 +63,11 @@ def toString (n : NodeID) : Option Text :=
 /-- `a.Equal(b)` = `a.String() == b.String()` (both non-nil, valid types) -/
 def equal (a b : NodeID) : Bool := toString a == toString b
 
+/-- `ua.TypeRegistry` (typereg.go): `Register` stores under the key `id.String()`, `New` looks the
+    key `id.String()` up — `entries` = (key, registered type) in registration order -/
+def regLookup (entries : List (Option Text × Nat)) (id : NodeID) : Option Nat :=
+  (entries.find? fun e => e.1 == toString id).map (·.2)
+
 structure Expanded where
   node : NodeID
   nsu : Text
